@@ -68,6 +68,7 @@ type Stage struct {
 	CrashIsViol  bool // a panic in the child is a violation (default true via props init)
 	NoCrashViol  bool
 	RaceFilter   func(r RaceReport) bool // which race reports are attributed to the property (nil = all)
+	RaceSig      func(r RaceReport) string // optional canonical signature for a family of reports ("" = default pair key)
 	Repeat       int                     // run the binary this many times (quick), RepeatT (thorough)
 	RepeatT      int
 	Parallel     int // -test.parallel
@@ -287,6 +288,11 @@ func (rc *RunCtx) runBinary(st *Stage, bin string, rep int, info map[string]inte
 				continue
 			}
 			sig := "race:" + r.Key()
+			if st.RaceSig != nil {
+				if c := st.RaceSig(r); c != "" {
+					sig = "race:" + c
+				}
+			}
 			if seen[sig] {
 				continue
 			}
@@ -329,8 +335,9 @@ func (rc *RunCtx) runBinary(st *Stage, bin string, rep int, info map[string]inte
 		} else {
 			rc.Violations = append(rc.Violations, Violation{Sig: "crash:" + st.Name + ":" + crashSite(text), Msg: "the process under monitoring crashed: " + firstPanicLine(text), Stage: st.Name, Mon: "process-survival", Detail: last, Extra: p})
 		}
-	case st.Race && nraces > 0 && !strings.Contains(text, "--- FAIL"):
-		// exit code 66 from the race runtime; already harvested
+	case st.Race && nraces > 0 && (!strings.Contains(text, "--- FAIL") || strings.Contains(text, "race detected during execution of test")):
+		// exit code 66 from the race runtime, or the testing package failing the test because of the
+		// race reports: already harvested above
 	default:
 		p := saveDump("fail")
 		rc.Errors = append(rc.Errors, fmt.Sprintf("stage %s: driver failed: %v (see %s)\n%s", st.Name, err, p, tail(text, 1500)))
